@@ -237,22 +237,7 @@ func checkResponseProvenance(l *core.Ledger, r *rt, rule string) {
 			l.OK(rule, s.key, pos, "forwards its response parameter unchanged")
 		case "zero":
 			// only the send confirmation: inside a deferred closure, guarded by waitForSend
-			ok := s.fn.Parent() != nil && s.msgID != nil
-			if ok {
-				ok = false
-				sx.AllInstrs(s.fn, func(_ sx.Node, in ssa.Instruction) {
-					ifi, isIf := in.(*ssa.If)
-					if !isIf {
-						return
-					}
-					v, _ := condOf(ifi)
-					if c, isCall := v.(*ssa.Call); isCall && c.Call.StaticCallee() != nil && c.Call.StaticCallee().Name() == "waitForSend" {
-						if sx.EdgeDominates(s.fn, edgeWhere(ifi, true), sx.NodeOf(s.at)) {
-							ok = true
-						}
-					}
-				})
-			}
+			ok := s.fn.Parent() != nil && s.msgID != nil && confirmationExact(s.fn, s.at)
 			l.Check(ok, rule, s.key, pos, "empty response only as send confirmation guarded by waitForSend", "an empty response (no node id, no error) is delivered outside the send-confirmation path: the call would count it as a successful reply from node 0")
 		case "literal":
 			nid, has := s.fields["nid"]
